@@ -177,6 +177,9 @@ def read_layering(ctx, p):
             lib.precedes(ctx, p + 'b overlay-first %s' % k, b, ovs, [s], 'the commit overlay is consulted before the tables on every path')
             lib.held_at(ctx, p + 'c overlay-lock-held %s' % k, b, s, '.DbInner.commit_overlay',
                         'the commit-overlay read guard is still held when the tables are consulted (no gap in which a commit can be cleaned and missed)')
+            if arm == 'btree':
+                lib.held_at(ctx, p + 'c2 log-overlay-read-lock-held %s' % k, b, s, '.DbInner.log',
+                            'a btree lookup walks header -> root -> ... -> leaf: the log-overlay read guard is held across the whole walk (a record published between two node fetches would mix two versions of the tree)')
             # table lookup only when the overlay had no entry: depends on the overlay lookup outcome
             lib.result_guards(ctx, p + 'd tables-only-on-overlay-miss %s' % k, b, ovs, s, 'the table lookup happens only on one outcome (miss) of the overlay lookup')
             # log overlay is handed to the table lookup
